@@ -332,6 +332,18 @@ def r4(ctx: Ctx) -> None:
             ok = True
     if not ok:
         ctx.report(f.where, "cell-tuple", "select_box does not build (xc - w/2, yc - h/2, xc + w/2, yc + h/2, ratio)", lineno=f.node.lineno)
+    # ... for EVERY cell of the allocation: the formula is built on a complete grid (rows x columns), a cell nothing is allocated in
+    # has ratio 0, it is not left out
+    from .common import posted_unconditionally
+    every = False
+    for lp in atoms_of(c, lambda x: x[0] == "for" and len(x) == 5):
+        for st in lp[3]:
+            if st[0] == "expr" and st[1] in apps and posted_unconditionally(lp[3], st):
+                every = True
+    ctx.site(f.where, "a tuple is added for every cell of the allocation (cells without the module have ratio 0)", unconditional=every)
+    if apps and not every:
+        ctx.report(f.where, "cell-left-out", "select_box adds the cell tuple only under a condition: the grid handed to the encoding has holes (boxes spanning a hole are "
+                   "admitted although they are not full rectangles of cells, and the hole's area is not charged to the cost)", lineno=f.node.lineno)
     g = ctx.func(RECT, "solve")
     cg = canon_function(g, ctx.model)
     # the bounding-box update: four guarded assignments c? = n?  with  cx0 > nx0, cy0 > ny0, cx1 < nx1, cy1 < ny1
